@@ -443,6 +443,62 @@ theorem CInv.run {n : Nat} (hn : 0 < n) (S : Src σ) {y y' : CopySys σ} {evs : 
     | none => simp [hs] at hr
     | some y1 => simp [hs] at hr; exact ih (h.step hn S hs) hr
 
+/-! ## Copy over a list source -/
+
+def CEv.isEnv {σ : Type} : CEv σ → Bool
+  | .env _ => true
+  | _ => false
+
+/-- list source, no environment interference: what was pulled plus what is left is the list -/
+structure LInv (l : List Item) (y : CopySys (List Item)) : Prop where
+  split : y.pulled.filterMap Res.item? ++ y.src = l
+  done : Res.eof ∈ y.pulled → y.src = []
+
+theorem LInv.step {l : List Item} {f : CopyFacts} {y y' : CopySys (List Item)} {e : CEv (List Item)}
+    (h : LInv l y) (he : e.isEnv = false) (hs : y.step f listSrc e = some y') : LInv l y' := by
+  obtain ⟨h1, h2⟩ := h
+  cases e with
+  | env g => simp [CEv.isEnv] at he
+  | close i =>
+    simp only [CopySys.step] at hs
+    simp at hs; subst hs
+    constructor
+    · simp only []; split <;> simpa [listSrc] using h1
+    · intro hm; simp only []; split <;> simpa [listSrc] using h2 hm
+  | recv i =>
+    simp only [CopySys.step] at hs
+    split at hs
+    · simp at hs
+    · simp at hs; subst hs; exact ⟨h1, h2⟩
+    · cases hsrc : y.src with
+      | nil =>
+        simp [listSrc, hsrc] at hs; subst hs
+        constructor
+        · have e1 : List.filterMap Res.item? [Res.eof] = [] := rfl
+          simp only [List.filterMap_append, e1, List.append_nil]; simpa [hsrc] using h1
+        · intro _; rfl
+      | cons x rest =>
+        simp [listSrc, hsrc] at hs; subst hs
+        constructor
+        · have e1 : List.filterMap Res.item? [Res.item x] = [x] := rfl
+          simp only [List.filterMap_append, e1, List.append_assoc, List.singleton_append]; simpa [hsrc] using h1
+        · intro hm
+          simp at hm
+          have := h2 hm
+          simp [hsrc] at this
+
+theorem LInv.run {l : List Item} {f : CopyFacts} {y y' : CopySys (List Item)} {evs : List (CEv (List Item))}
+    (h : LInv l y) (he : ∀ e ∈ evs, e.isEnv = false) (hr : y.run f listSrc evs = some y') : LInv l y' := by
+  induction evs generalizing y with
+  | nil => simp [CopySys.run] at hr; subst hr; exact h
+  | cons e es ih =>
+    simp only [CopySys.run] at hr
+    cases hs : y.step f listSrc e with
+    | none => simp [hs] at hr
+    | some y1 =>
+      simp [hs] at hr
+      exact ih (h.step (he e (by simp)) hs) (fun e' he' => he e' (by simp [he'])) hr
+
 /-! ## Merge -/
 
 theorem ofSrc_append (k j : Nat) (x : Item) (l : List (Nat × Item)) :
